@@ -46,6 +46,20 @@ SPEC = {
              "document then ENDS inside a block scalar, which owns the final line break(s) of the file (clip: exactly one, `+`: all). "
              "End of file: three files in seven (each syntax separately) end without the final newline, with two blank lines or with a "
              "`#` comment line; for x.yaml only where yaml.v2 reads the file as before (else yaml_tail_fallback). "
+             "TestEquivalence / TestLocals (and the fuzz targets) then turn a drawn share of the descriptions into two further classes "
+             "(c16/extra_test.go). 6%: a description WITHOUT scenarios - the scenarios are taken out, x.hcl has no `scenario` block, x.yaml no "
+             "`scenarios` key (sources and 1-4 requests / calls stay). Nothing says what such a description means, so nothing but sameness is "
+             "demanded: ReadAmmoConfig accepts both files or rejects both; when it accepts them both are the stated configuration; the two "
+             "providers both cannot be built, or both end without ammo, or deliver the same ammo (items asked for: number of steps + 1). On the "
+             "present tree both load and both providers end with `no ammo in file`. The third spelling, x.yaml with `scenarios: []`, is run "
+             "and only counted (no_scenarios_yaml_empty_list_like_hcl / _unlike_hcl). "
+             "9%: ONE VERY LONG PHYSICAL LINE in one request / call: 72% a minified JSON document on one line as body / payload (array of 1-6 "
+             "drawn fragments - go-templates, blanks, cyrillic / CJK, backslashes and quotes, `%{`, `a: b # c` - repeated and padded to the exact size; "
+             "35% with 0-2 short lines before and after; HCL: `<<EOT` heredoc 60%, else a quoted string on one line; x.yaml: literal block 50%, folded 12%, "
+             "double- / single-quoted by hand 20% (half of them wrapped at blanks), else the Marshal form, which yaml.v2 folds at blanks), 16% (gRPC 28%) a header / metadata value "
+             "(`Authorization: Bearer <token without blanks>` or a `Cookie` list with blanks), 12% (http) the query string of the uri. Size of the line: 30% "
+             "4096 +-64 bytes, 10% 4096-4098, 10% 8192 +-64, 15% 65536 +-64, the rest log-uniform in 4 KiB - 70 KiB. The case stores the recipe, not the text. "
+             "Such a case is checked like any other (stated configuration, both readings, delivered ammo): the line must arrive byte for byte. "
              "TestConcurrentLoads: 3-6 different descriptions (30% with locals), each in both syntaxes in its own directory, are first "
              "read alone (reference, checked like a TestEquivalence case incl. delivered ammo) and then loaded 4 (thorough 12) times each by 12-24 "
              "goroutines released together in a process with GOMAXPROCS=4 (3-6 loaders per processor, so that loaders are descheduled "
@@ -101,6 +115,15 @@ SPEC = {
         "TestEquivalence/hcl_tail_nonl": 0.07, "TestEquivalence/hcl_tail_blank": 0.07, "TestEquivalence/hcl_tail_comment": 0.07,
         "TestLocals/weight_zero": 0.12, "TestLocals/yaml_scenarios_section_not_last": 0.28, "TestLocals/yaml_ends_with_block_scalar": 0.12,
         "TestLocals/yaml_ends_with_block_scalar_owning_final_newline": 0.03,
+        # classes added after seeded defects C16/m10-m11
+        "TestEquivalence/no_scenarios": 0.025, "TestEquivalence/no_scenarios_http": 0.014, "TestEquivalence/no_scenarios_grpc": 0.008,
+        "TestEquivalence/no_scenarios_several_steps": 0.015,
+        "TestEquivalence/long_line": 0.05, "TestEquivalence/hcl_physical_line_4k_or_more": 0.04, "TestEquivalence/hcl_physical_line_64k_or_more": 0.008,
+        "TestEquivalence/yaml_physical_line_4k_or_more": 0.03, "TestEquivalence/long_line_around_4k": 0.015,
+        "TestEquivalence/long_line_in_hcl_heredoc": 0.015, "TestEquivalence/long_line_in_hcl_quoted_string": 0.02,
+        "TestEquivalence/long_line_in_yaml_literal": 0.015, "TestEquivalence/long_line_in_yaml_marshal_form": 0.008,
+        "TestEquivalence/long_line_header": 0.006,
+        "TestLocals/no_scenarios": 0.02, "TestLocals/long_line": 0.05, "TestLocals/hcl_physical_line_4k_or_more": 0.04,
         "TestConcurrentLoads/conc_all_descriptions_differ": 0.6, "TestConcurrentLoads/conc_http_and_grpc": 0.4,
         "TestConcurrentLoads/conc_hcl_over_2k": 0.3, "TestConcurrentLoads/conc_loaders_5_per_processor_or_more": 0.2,
         "TestConcurrentLoads/conc_40_hcl_loads_or_more": 0.4, "TestConcurrentLoads/conc_12_provider_builds_or_more": 0.6,
@@ -141,7 +164,8 @@ SPEC = {
                  "the order inside user maps (headers, mapping, ...), keys, the block structure and numbers are as yaml.v2 writes them (no flow "
                  "collections, no indented sequences, no comments), and HCL strings are quoted or `<<EOT` heredocs (no `<<-`). The "
                  "native byte-mutation campaign of the design, YAML anchors / the YAML `locals` helper block and HCL comment / "
-                 "CRLF layouts are not implemented."),
+                 "CRLF layouts are not implemented (measured, not asserted: in a file saved with CR LF line ends an HCL heredoc body keeps "
+                 "\\r\\n while a YAML block scalar gives \\n). A description without scenarios is only required to mean the same in both syntaxes."),
     },
     "assumptions": [
         "locals blocks are evaluated in file order and a name assigned again by a later block means the later value from then on (the documentation only shows re-declaration with the same value)",
